@@ -41,10 +41,10 @@ func (r *Rand) Intn(n int) int {
 	}
 	return int(r.U64() % uint64(n))
 }
-func (r *Rand) Range(lo, hi int) int { return lo + r.Intn(hi-lo+1) } // inclusive
-func (r *Rand) Bool() bool           { return r.U64()&1 == 1 }
+func (r *Rand) Range(lo, hi int) int     { return lo + r.Intn(hi-lo+1) } // inclusive
+func (r *Rand) Bool() bool               { return r.U64()&1 == 1 }
 func (r *Rand) Chance(num, den int) bool { return r.Intn(den) < num }
-func (r *Rand) Pick(n int) int       { return r.Intn(n) }
+func (r *Rand) Pick(n int) int           { return r.Intn(n) }
 
 // SubSeed derives the seed of case i of property p.
 func SubSeed(seed int64, p string, i int) uint64 {
